@@ -67,6 +67,9 @@ def dec(v):
             return ArrayFormula(v['$af'][0], v['$af'][1])
         if '$text' in v:
             return TextCell(v['$text'])
+        if '$dtf' in v:
+            from openpyxl.worksheet.formula import DataTableFormula
+            return DataTableFormula(**v['$dtf'])
         return {k: dec(x) for k, x in v.items()}
     return v
 
